@@ -18,6 +18,8 @@ fn ev_json(e: &rt::Event) -> Value {
   use rt::Ev::*;
   let (k, extra) = match &e.ev {
     Req { obj, write } => ("req", json!({"obj": obj, "w": write})),
+    TryReq { obj, write } => ("req", json!({"obj": obj, "w": write, "try": true})),
+    TryFail { obj, write } => ("tryfail", json!({"obj": obj, "w": write})),
     Acq { obj, write, ver, rec } => ("acq", json!({"obj": obj, "w": write, "ver": ver, "rec": rec})),
     Rel { obj, write } => ("rel", json!({"obj": obj, "w": write})),
     WaitBegin { cv, mutex } => ("wait+", json!({"cv": cv, "obj": mutex})),
